@@ -74,6 +74,29 @@ def early_plain_shape(stmts):
     return seq(tuple(stmts))
 
 
+def yield_in_if_shape(stmts):
+    """known finding KF22: an `if` one of whose branches contains a yield at its top level"""
+    for st in U.walk(tuple(stmts)):
+        if st[0] == "if":
+            bodies = [b for _, b in st[1]] + ([st[2]] if st[2] is not None else [])
+            if any(any(x[0] == "yield" for x in b) for b in bodies):
+                return True
+    return False
+
+
+def optional_loop_shape(stmts):
+    """known finding KF21: an optional block whose first statement is a loop (the loop head is the optional's entry state)"""
+    for st in U.walk(tuple(stmts)):
+        if st[0] == "optional" and st[1] and st[1][0][0] == "loop":
+            return True
+    return False
+
+
+KNOWN_SHAPES = [("C01:KF13:early-plain-assignment", lambda ast: early_plain_shape(ast)),
+                ("C01:KF22:yield-inside-if", yield_in_if_shape),
+                ("C01:KF21:optional-starting-with-loop", optional_loop_shape)]
+
+
 def check_program(item):
     stmts, label, want_c, cap, levels = item["ast"], item["label"], item["want_c"], item["cap"], item["levels"]
     src = U.source(stmts)
@@ -178,9 +201,10 @@ def run(tier, seed):
             ck.sample(dict(source=r["src"], product_states=r["states"], shapes=r["shapes"][:6]))
         for p in r["problems"]:
             it = items[idx]
-            if p["kind"] == "mismatch" and early_plain_shape(it["ast"]):
-                sig = "C01:KF13:early-plain-assignment"
-            else:
+            sig = None
+            if p["kind"] == "mismatch":
+                sig = next((k for k, pred in KNOWN_SHAPES if pred(it["ast"])), None)
+            if sig is None:
                 sig = "C01:%s:%s:%s" % (p["kind"], p["what"].split("|")[0][:40].strip(), sha(r["src"])[:10])
             ck.violation(sig, "%s %s | input %s | %s" % (p["what"], p["argv"], p["path"], r["src"].replace("\n", " ")),
                          dict(src=r["src"], argv=p["argv"], path=p["path"], ast=repr(it["ast"]), kind=p["kind"]))
